@@ -26,7 +26,8 @@ LEVEL = "fault_enumeration"
 MODES = ["O0"]
 BATCH = 2
 PLAN_WATCHDOG_S = 1800
-TIERS = {"quick": {"runs": 600, "wall": 55}, "thorough": {"runs": 1600, "wall": 1500}}
+MAX_FAULTED_EXECUTIONS = 12000
+TIERS = {"quick": {"runs": 600, "wall": 55}, "thorough": {"runs": 1200, "wall": 1200}}
 RULE = ("plan = seeded PEL directory (or single file) + buffer sizes + option set; every I/O event of the "
         "fault-free reference execution is a fault site and one execution is run per (site, applicable fault "
         "kind) [runs of buffered non-draining writes: first, last and seeded others in reduced mode, every "
@@ -377,6 +378,11 @@ def execute(plan):
                         continue
                     b = rng.choice(faults_for(rng.choice(later), plan, rng))
                     fault_lists.append([a, b])
+        if len(fault_lists) > MAX_FAULTED_EXECUTIONS:
+            # keep a plan within minutes: a seeded sample of the enumeration (counted, so that evidence says so)
+            keep = sorted(random.Random(plan["fseed"] + 2).sample(range(len(fault_lists)), MAX_FAULTED_EXECUTIONS))
+            bump("enumeration_sampled_down")
+            fault_lists = [fault_lists[i] for i in keep]
         for faults in fault_lists:
             res, snap = run_once(w, plan, originals, faults)
             evals += 1
